@@ -135,20 +135,35 @@ def run(ctx):
         if bad:
             bad["call"] = "Experiment history with a shared stratified Randomizer"
             ctx.violation("oracle", bad, site="Experiment")
-    # ---- seeded randomisation from the same assignment is reproducible
-    for _ in range(ctx.n(60, 600)):
+    # ---- seeded randomisation from the same assignment is reproducible: every kind of seed (int, str, a fresh SHA256, a fresh
+    #      RandomState in the same state), both randomizers, unrelated numpy.random activity between the runs
+    from cryptorandom.cryptorandom import SHA256 as _SHA
+    for _ in range(ctx.n(120, 1200)):
         n = ctx.rng.randint(2, 7); group = [ctx.rng.choice(["x", "y", "z"]) for _ in range(n)]
         seed = ctx.rng.randint(0, 10**9)
-        a = npc.Experiment(group, [[0.0]] * n); b = npc.Experiment(group, [[0.0]] * n)
-        a.randomize(seed=seed); b.randomize(seed=seed)
+        skind = ctx.rng.choice(["int", "int", "str", "sha256", "randomstate", "randomstate"])
+        mk = {"int": lambda: seed, "str": lambda: "s%d" % seed, "sha256": lambda: _SHA(seed), "randomstate": lambda: np.random.RandomState(seed % 2**32)}[skind]
+        strat = ctx.rng.random() < 0.4
+        cov = [[ctx.rng.choice([0, 1])] for _ in range(n)] if strat else None
+        def fresh():
+            if strat:
+                return npc.Experiment(group, [[0.0]] * n, cov, npc.Experiment.Randomizer(randomize=npc.randomize_in_strata))
+            return npc.Experiment(group, [[0.0]] * n)
+        np.random.seed(ctx.rng.randint(0, 10**6))
+        a = fresh(); b = fresh()
+        ra = guarded(a.randomize, True, mk())
+        np.random.seed(ctx.rng.randint(0, 10**6)); np.random.random(ctx.rng.randint(0, 3))
+        rb = guarded(b.randomize, True, mk())
         first = b.group.tolist()
         # the same object again, started from the same assignment with the same seed (after some unseeded use)
         for _k in range(ctx.rng.randint(0, 2)):
             b.randomize()
-        b.group = np.array(group, dtype=object); b.randomize(seed=seed)
-        ctx.case(("repro", tuple(group), seed), True); ctx.count("seeded-reproducible")
-        if a.group.tolist() != first or b.group.tolist() != first:
-            ctx.violation("oracle", {"call": "Experiment.randomize", "group": group, "seed": seed, "issue": "seeded randomisation from the same assignment is not reproducible"}, site="Experiment")
+        b.group = np.array(group, dtype=object); rc_ = guarded(b.randomize, True, mk())
+        ctx.case(("repro", tuple(group), seed, skind, strat), True); ctx.count("seeded-reproducible-" + skind)
+        if ra[0] != "ok" or rb[0] != "ok" or rc_[0] != "ok" or a.group.tolist() != first or b.group.tolist() != first:
+            ctx.violation("oracle", {"call": "Experiment.randomize", "group": group, "seed": seed, "seed_given_as": skind, "stratified": strat, "covariate": cov,
+                                     "issue": "seeded randomisation from the same assignment is not reproducible",
+                                     "runs": [a.group.tolist(), first, b.group.tolist()]}, site="Experiment")
     # ---- type checks
     e = npc.Experiment([0, 1], [[1.0], [2.0]])
     tests = npc.Experiment.make_test_array(npc.Experiment.TestFunc.mean_diff, [0])
